@@ -16,7 +16,7 @@ STEP_BUDGET = 3_000_000  # line events per case; a case that exceeds it is repor
 ANCHOR_FILES = ["dissect/hypervisor/disk/vhd.py"]
 RULE = (
     "VHD images written by an independent writer from a content model: fixed disks with the 512-byte and the "
-    "legacy 511-byte footer; dynamic disks with block sizes 512 B..2 MiB (..64 MiB thorough), every sector-bitmap "
+    "legacy 511-byte footer, also with guest content that itself begins with a VHD footer / dynamic header (a nested image); dynamic disks with block sizes 512 B..2 MiB (..64 MiB thorough), every sector-bitmap "
     "size class (1 sector for <4096-sector blocks, more beyond), BATs with 0xFFFFFFFF holes and spare entries, "
     "blocks at arbitrary sector positions in shuffled/reversed/run-wise order, virtual sizes that are not a "
     "block multiple, all-ones and random sector bitmaps (data under 0-bits stored as zeros); byte reads and "
@@ -28,7 +28,7 @@ ASSUMPTIONS = [
     "the harness's VHD writer/reference reader are a faithful reading of the VHD specification",
     "held means: held on the executions listed, not verified for all inputs",
 ]
-MINIMA = {"quick": {"reads_compared": 3000, "legacy_footer_cases": 5, "small_block_cases": 10}, "thorough": {"reads_compared": 30000}}
+MINIMA = {"quick": {"reads_compared": 3000, "legacy_footer_cases": 5, "small_block_cases": 10, "fixed_with_nested_vhd_content": 5}, "thorough": {"reads_compared": 30000}}
 MECH = "vhd.read"
 DATA = os.path.join(os.environ.get("VF_REPO", "/repo"), "tests", "data")
 
@@ -113,7 +113,9 @@ def run(case: dict, ctx) -> dict:
         return res
     if k == "fixed":
         nsec = rng.choice([1, 2, 15, 16, 17, rng.randrange(1, 400), rng.randrange(1, 5000)])
-        sf, layer, meta = w.build_fixed(rng, nsectors=nsec, legacy=case["legacy"], tag=rng.getrandbits(48))
+        nested = rng.choice([None, None, "dynamic", "fixed"])
+        sf, layer, meta = w.build_fixed(rng, nsectors=nsec, legacy=case["legacy"], tag=rng.getrandbits(48), nested=nested)
+        res["cnt"]["fixed_with_nested_vhd_content"] = int(nested is not None)
         units = [SECTOR, 8192]
     else:
         bs, n = case["bs"], case["n"]
